@@ -30,6 +30,23 @@ static const char* c04_token(const char* s, char* out, size_t cap)
     return s;
 }
 
+/* every byte of the object that belongs to no member (padding) must still hold the fill byte after deserialization;
+ * only on unoptimised builds (an optimiser may legally widen a member store over padding) */
+#ifdef C04_GUARD_PADDING
+#    define C04_CHECK_PADDING(T, OBJ, FILL, FLAG)                                                                     \
+        do {                                                                                                          \
+            uint8_t* mask_ = (uint8_t*) calloc(1, sizeof(T));                                                         \
+            c04_mask_##T(mask_, 0);                                                                                   \
+            for (size_t i_ = 0; i_ < sizeof(T); i_++)                                                                 \
+            {                                                                                                         \
+                if (!mask_[i_] && ((const uint8_t*) (OBJ))[i_] != (uint8_t) (FILL)) { (FLAG) = 1; }                    \
+            }                                                                                                         \
+            free(mask_);                                                                                              \
+        } while (0)
+#else
+#    define C04_CHECK_PADDING(T, OBJ, FILL, FLAG) do { (void) (FLAG); } while (0)
+#endif
+
 #define C04_DEFINE_HANDLER(IDX, T)                                                                                    \
     static int handle_##IDX(const char* op, const char* rest)                                                         \
     {                                                                                                                 \
@@ -66,7 +83,10 @@ static const char* c04_token(const char* s, char* out, size_t cap)
             uint8_t* inx = c04_exact_copy(in, n, &inbase);                                                            \
             size_t sz = n;                                                                                            \
             const int rc = T##_deserialize_(o2, inx, &sz);                                                            \
-            if (rc < 0) { o_str(err_name(rc)); }                                                                      \
+            int guard = 0;                                                                                            \
+            C04_CHECK_PADDING(T, o2, fill, guard);                                                                    \
+            if (guard) { o_str("guard:padding-modified"); }                                                           \
+            else if (rc < 0) { o_str(err_name(rc)); }                                                                 \
             else { o_str("ok"); dump_##T(o2); o_u64(sz); }                                                            \
             free(o2);                                                                                                 \
             free(inbase);                                                                                             \
